@@ -939,11 +939,16 @@ class Buffer(Iterable):
             return
         self._stopped.set()
         tasks = self._tasks
-        while not tasks.empty():
-            _ = tasks.get()
-        # `tasks` is now empty. The thread needs to put at most one
-        # more element into the queue, which is safe.
-        self._worker.join()
+        worker = self._worker
+        while worker.is_alive():
+            # The worker may be blocked in `put` on a full queue, and after
+            # that it still needs room for the end marker (or the `STOPPED`
+            # marker plus the exception object). Keep making room until it exits.
+            try:
+                tasks.get(timeout=0.01)
+            except queue.Empty:
+                pass
+        worker.join()
         self._stopped = None
 
     def __iter__(self):
